@@ -127,6 +127,11 @@ func c13Scenarios(thorough bool) []cmdScn {
 			mk(fmt.Sprintf("silent-then-timeout:k=%d", k), "", "never", k, k, false, false)
 		}
 	}
+	// one caller re-using its ActiveMessage object: the first command is answered, the terminal hangs up, the second
+	// command (same object) races the teardown
+	out = append(out, cmdScn{Name: "c13:seq-reuse-after-respond", Disconnect: true, FailWrites: true,
+		Terms:    []termSpec{{Phone: p1, Behaviour: "inorder", Expect: 1, CloseAt: "after-respond"}},
+		SeqCalls: [][]callSpec{{{Key: p1, Cmd: 0x8104, TimeoutMs: 3000}, {Key: p1, Cmd: 0x8801, TimeoutMs: 50}}}})
 	// requests pipelined, then the terminal disappears while replies are pending and writes to it fail (3 deviations:
 	// the reader must be caught between Read and its hand-over to the writer while the writer tears the connection down)
 	for _, how := range []string{"pipelined-then-reset", "pipelined-then-close"} {
@@ -251,7 +256,7 @@ func init() {
 	})
 	vc.Register(&vc.Check{
 		ID: "C13", Level: "model_checking", SingleProc: true,
-		Rule: "C12's machinery with the terminal closing or resetting at every point of its script (before join, after join, after k commands were written, after responding to all / some, never) x k = 0..2 (thorough 0..5; k >= 4 at 2 deviations) queued or outstanding commands x write failures as a socket answer; plus 2..3 pipelined requests followed by reset/close with failing writes at 3 deviations; plus 1..2 commands to a terminal that goes online, pipelines 2 requests and disappears with failing writes; plus busy-writer scenarios (the user's write callback takes 120 ms of virtual time for one reply): 4-5 commands queued behind it (more than the 3-slot queue) and the peer hangs up 50 ms later, 13 requests pipelined behind it (more than the 10-slot reader->writer queue) followed by close/reset with 0..1 commands waiting, 5 timeouts expiring meanwhile; ALL schedules within the deviation bound (2 quick, 3 thorough). Then EVERY thread interleaving (no preemption bound) of the scenarios with at most one caller (thorough: all scenarios) with the default environment answers (timers fire when nothing else can run, first ready select case (moving on to the next when the same select is met again), writes succeed; thorough: also with one environment deviation for scenarios of at most one call), using a cache of happens-before state keys: each state is expanded once, every state and transition is executed at least once; the cache is validated per run by a self-test (cached search = every-schedule search on 20 programs that fail when a component of the key is removed) and by comparing a harness digest whenever a key is met again; the flag exhaustive refers to the deviation-bounded families; for the cached pass the counters unbounded_* say how many scenarios closed and how many stopped at the state limit (quick 60000 states, thorough 1000000). " +
+		Rule: "C12's machinery with the terminal closing or resetting at every point of its script (before join, after join, after k commands were written, after responding to all / some, never) x k = 0..2 (thorough 0..5; k >= 4 at 2 deviations) queued or outstanding commands x write failures as a socket answer; plus one caller re-using its ActiveMessage object whose second command races the hang-up that follows the first answer; plus 2..3 pipelined requests followed by reset/close with failing writes at 3 deviations; plus 1..2 commands to a terminal that goes online, pipelines 2 requests and disappears with failing writes; plus busy-writer scenarios (the user's write callback takes 120 ms of virtual time for one reply): 4-5 commands queued behind it (more than the 3-slot queue) and the peer hangs up 50 ms later, 13 requests pipelined behind it (more than the 10-slot reader->writer queue) followed by close/reset with 0..1 commands waiting, 5 timeouts expiring meanwhile; ALL schedules within the deviation bound (2 quick, 3 thorough). Then EVERY thread interleaving (no preemption bound) of the scenarios with at most one caller (thorough: all scenarios) with the default environment answers (timers fire when nothing else can run, first ready select case (moving on to the next when the same select is met again), writes succeed; thorough: also with one environment deviation for scenarios of at most one call), using a cache of happens-before state keys: each state is expanded once, every state and transition is executed at least once; the cache is validated per run by a self-test (cached search = every-schedule search on 20 programs that fail when a component of the key is removed) and by comparing a harness digest whenever a key is met again; the flag exhaustive refers to the deviation-bounded families; for the cached pass the counters unbounded_* say how many scenarios closed and how many stopped at the state limit (quick 60000 states, thorough 1000000). " +
 			"Oracle: no goroutine panics (process death) and at quiescence every caller has returned. Non-trivial = schedule with >=1 deviation",
 		Assumptions: []string{"'within its timeout plus slack' is decided as: returns in every maximal execution in which timers fire; no wall clock"},
 		Run:         run(c13Scenarios), Drivers: drv,
